@@ -291,12 +291,15 @@ def check(ctx):
         ok = ok and bool(find("rename[prev_name] = new_name", blk)) and bool(find("rebuild(dsk, *args, rename=rename)", blk))
         lp = next((n for n in walk_no_nested(blk) if isinstance(n, ast.For)), None)
         ok = ok and lp is not None and unparse(lp.iter) == "get_collection_names(coll)"
+    if ok:
+        ok = bool(find("tok = tokenize(coll, blocker)", blk)) and bool(find("new_name = 'wait_on-' + tokenize(prev_name, tok)", blk))
     ctx.ob("WAIT.blocker", wait_on, "wait_on: one checkpoint of all inputs; every chunk of every name is bound to it and renamed", ok)
     ok = blk is not None and bool(find("repack([block_one(coll) for coll in unpacked])", wait_on))
     ctx.ob("WAIT.all", wait_on, "every unpacked collection is rebuilt", ok)
 
 
 VARIANTS = [
+    (GM, "        tok = tokenize(coll, blocker)", "        tok = tokenize(coll, split_every)", "WAIT.blocker"),
     (GM, "        new_layer_name = clone_key(prev_layer_name, seed=seed)", "        new_layer_name = clone_key(prev_layer_name, seed=None)", "SEED.uniform"),
     (GM, "    if seed is None:\n        seed = uuid.uuid4().bytes", "    if not seed:\n        seed = uuid.uuid4().bytes", "SEED.fresh"),
     (GM, "        layer_deps_to_clone = layer_deps - omit_layers", "        layer_deps_to_clone = layer_deps", "OMIT.partition"),
